@@ -23,9 +23,9 @@ CHECKS = {
          "Every tree with <= 4 (thorough 5) nodes - files with 4 contents, directories, symlinks to every other node / .. / itself / a missing name / a file outside: file links, directory links, chains, true cycles, dangling links by construction - is written to disk and recorded under follow x normalise; all trees <= 3 nodes additionally under deviating algorithm lists, exclude patterns, strip prefixes and path lists; InTotoRun / RecordStart+Stop x 5 file changes; the 81 match-products combinations. ref.Walk decides the exact artifact map (names, digests per algorithm) or that an error is due (dangling, unknown algorithm, collision, true cycle).",
          "Trusted: ref.Walk, crypto/sha*. Outside: bigger trees, other contents; exclude patterns with symlinks or naming a directory (don't-care).",
          "DESIGN.md §3 C13"),
- "C14": ("bounded-exhaustive enumeration of child write scripts executed by real processes through RunCommand, exact capture comparison, structural (not timed) deadlock detection through /proc and FIONREAD",
-         "All scripts of <= 3 (thorough 4) operations over {write 1/2/3 half-pipe units to stdout/stderr, close stdout, close stderr} x exit 0/3/255, plus signals, pauses, working directories, volume up to 4 MiB and unstartable / empty commands, run as real children; every write uses its own fill byte, so stdout, stderr and the exit status are compared exactly; a hang is established structurally (child in write(2) on a pipe whose fill level, read on the parent's end, equals its capacity and does not move while RunCommand has not returned). Schedules between parent and child are the kernel's: the interleaving the property quantifies over is the child's write order, which is enumerated.",
-         "Trusted: linux /proc, FIONREAD, F_GETPIPE_SZ. Not done in this check: the all-schedules exploration over a simulated process (DESIGN.md C14 exploration 1).",
+ "C14": ("stateless exploration of ALL thread interleavings of the real RunCommand against a simulated child process under a cooperative scheduler (state-hash pruning), plus exhaustive enumeration of write scripts on real processes with structural deadlock detection",
+         "Exploration 1: the unmodified RunCommand runs against a simulated child (overlay redirects os/exec to a shim; goroutines and channel operations of the package are scheduler threads/points): for every write script of <= 4 (thorough 5) operations over {write 1/2/3 units to stdout/stderr, close stdout, close stderr} x exit 0/3 every interleaving of parent, child, the package's goroutines and os/exec-style copiers at each pipe read/write/close, Start, Wait and channel operation is explored, pipes hold 2 units; deadlock = no enabled thread (exact, no timer); capture and status are compared in every schedule. Exploration 2: the same scripts (<= 3, thorough 4, plus volume up to 1/4 MiB, signals, working directories, unstartable commands) on real child processes, with a hang established structurally through /proc and FIONREAD; it validates the simulated pipes against the kernel's.",
+         "Trusted: the shim's reading of the os/exec contract (pipes before Start, Wait closes read ends, copiers), linux /proc. Unbuffered channels and select in the code under test make exploration 1 report itself inconclusive (exploration 2 then decides alone).",
          "DESIGN.md §3 C14"),
  "C15": ("bounded-exhaustive enumeration of the edit-distance-1 neighbourhood of valid seed files (all truncations, byte substitutions at every offset, all structural corruptions re-signed and verified) and of catalogues of degenerate layouts, keys, signatures and link directories; oracle: every call returns",
          "Four seed files (legacy/DSSE x full link/layout): every prefix and 12 substitute bytes at every third (thorough: every) offset through both loaders and, when loadable, validator, VerifySignature, Sign and InTotoVerify; every structural corruption of the C12 walk re-signed by the legitimate key and pushed through verification; 10 odd rules in all four rule positions, thresholds -1/0/2/2^31, odd names, zero steps, empty commands, garbage CAs, 55 key-type x material combinations as functionary key, 330 as verify/sign/layout key, hostile signature entries and link directories (symlink loops, self-delegating sublayouts, 200 garbage links). Panics are recovered and attributed; a dying or hanging worker is attributed to the case it announced.",
